@@ -1,13 +1,13 @@
 from collections import defaultdict
-from collections.abc import Callable
+from collections.abc import Callable, Iterator
 from dataclasses import dataclass, field
 from typing import cast
 
 from minimalloc import Buffer, Problem  # pyright: ignore[reportMissingTypeStubs]
 from xdsl.context import Context
-from xdsl.dialects import arith, builtin, func, llvm
+from xdsl.dialects import arith, builtin, func, llvm, memref
 from xdsl.dialects.memref import DeallocOp
-from xdsl.ir import Operation, OpResult, Sequence, SSAValue
+from xdsl.ir import Operation, OpResult, Sequence, SSAValue, Use
 from xdsl.parser import IndexType, IntegerAttr, StringAttr
 from xdsl.passes import ModulePass
 from xdsl.pattern_rewriter import (
@@ -234,6 +234,24 @@ class MiniMallocate(RewritePattern):
                 assert next_op is not None
             return next_op
 
+        def get_all_uses(value: SSAValue) -> Iterator[Use]:
+            """
+            All uses of a buffer, including the uses of all casts and views of it.
+            """
+            for use in value.uses:
+                yield use
+                if isinstance(
+                    use.operation,
+                    builtin.UnrealizedConversionCastOp
+                    | memref.SubviewOp
+                    | memref.CastOp
+                    | memref.ReinterpretCastOp
+                    | memref.MemorySpaceCastOp
+                    | snax.LayoutCast,
+                ):
+                    for result in use.operation.results:
+                        yield from get_all_uses(result)
+
         if len(func_op.body.blocks) != 1:
             return
 
@@ -263,13 +281,9 @@ class MiniMallocate(RewritePattern):
                 buffer_ops[buffer.id] = op
 
                 # add uses to the use list
-                for use in op.results[0].uses:
+                for use in get_all_uses(op.results[0]):
                     use_op = get_top_level_op(use.operation)
                     uses[use_op].append(buffer)
-                    if isinstance(use.operation, builtin.UnrealizedConversionCastOp):
-                        for cast_use in use.operation.results[0].uses:
-                            cast_use_op = get_top_level_op(cast_use.operation)
-                            uses[cast_use_op].append(buffer)
 
             if op in uses:
                 # udpate lifetime of buffer
